@@ -125,7 +125,7 @@ def stmt(st):
         if isinstance(h.type, ast.Name) and h.type.id in EXN and h.name is None:
             return f"(STry {stmts(st.body)} {EXN[h.type.id]} {stmts(h.body)})"
     if isinstance(st, ast.Raise) and isinstance(st.exc, ast.Call) and isinstance(st.exc.func, ast.Name) \
-            and st.exc.func.id == "TypeError" and st.cause is None:
+            and st.exc.func.id == "TypeError" and (st.cause is None or (isinstance(st.cause, ast.Constant) and st.cause.value is None)):
         return "SRaiseTypeError"
     raise Untranslatable("statement " + ast.unparse(st)[:80])
 
@@ -134,9 +134,9 @@ def stmt(st):
 SYNC = {"index": (True, None), "first": (True, None), "depth": (True, None), "length": (True, None),
         "_peek_next": (False, None), "__next__": (False, None), "last": (True, None), "nextitem": (True, None),
         "previtem": (True, None), "revindex0": (True, None), "revindex": (True, None),
-        "changed": (False, "value"), "cycle": (False, "args")}
+        "changed": (False, "value"), "cycle": (False, "args"), "__len__": (False, None)}
 ASYNC = {"length": (True, None), "_peek_next": (False, None), "__anext__": (False, None), "last": (True, None),
-         "nextitem": (True, None), "revindex0": (True, None), "revindex": (True, None)}
+         "nextitem": (True, None), "revindex0": (True, None), "revindex": (True, None), "__len__": (False, None)}
 INIT_NEED = ["self._iterable = iterable", "self._iterator = self._to_iterator(iterable)", "self._undefined = undefined",
              "self.depth0 = depth0"]
 CLASS_DEFAULTS = ["index0 = -1", "_length: int | None = None", "_after: t.Any = missing", "_current: t.Any = missing",
@@ -172,7 +172,7 @@ def translate(src_root):
     sync, funcs = methods_of(classes["LoopContext"], SYNC, "LoopContext")
     asyn, afuncs = methods_of(classes["AsyncLoopContext"], ASYNC, "AsyncLoopContext")
     # methods of the sync class that the async class must not override beyond the translated ones
-    extra = set(afuncs) - set(ASYNC) - {"_to_iterator", "__aiter__"}
+    extra = set(afuncs) - set(ASYNC) - {"_to_iterator", "__aiter__", "__repr__"}
     if extra:
         raise Untranslatable("AsyncLoopContext overrides untranslated members: " + ", ".join(sorted(extra)))
     init = ast.unparse(funcs["__init__"])
